@@ -44,7 +44,8 @@ POOL = "abcdefgh"
 def gen_specs(which):
     """generated Datasets 'g:<pool letters>:<x kind>': every combination of pool variables over the dimensions x, y, z"""
     _, letters, kx = which.split(":")
-    x = {"i": XI, "f": XF, "O": XS}[kx]
+    x = {"i": XI, "f": XF, "O": XS, "s": sorted(XF)}[kx]       # 's': float labels stored in increasing order
+    kx = "f" if kx == "s" else kx
     pool = {
         "a": D.spec(["x", "y"], [x, YL], [kx, "O"], vk="f", base=2, attrs={"long": "v"}, axattrs={"x": {"units": "m"}, "y": {"kind": "s"}}),
         "b": D.spec(["x"], [x], [kx], vk="i", base=3),
@@ -63,7 +64,7 @@ def gen_names(tier):
     sizes = (1, 2) if tier == "quick" else (1, 2, 3, 4)
     for n in sizes:
         for comb in itertools.combinations(POOL, n):
-            for kx in ("i", "f", "O"):
+            for kx in ("i", "f", "O", "s"):
                 if n == 4 and kx != "i":
                     continue
                 out.append("g:{}:{}".format("".join(comb), kx))
@@ -270,6 +271,35 @@ def check(case):
         return _check_join(case)
     w = case["ds"]
     ds = build_ds(w)
+    r = _judge(ds, case)
+    import zlib
+    if not r["ok"] or r.get("unspecified") or zlib.crc32(repr(case).encode()) % 3:
+        return r
+    # the same Dataset operation once more on the SAME Dataset after its axes were relabelled in place (first two labels of every axis swapped
+    # through ds.set_axis): Dataset and per-variable results must still agree (nothing remembered from the first call)
+    swapped = {}
+    shift = zlib.crc32(repr(case).encode()) % 2 == 0      # every second time the labels are SHIFTED instead (a sorted axis stays sorted)
+    for ax in list(ds.axes):
+        lab = py(ax.values)
+        if len(lab) >= 2:
+            if shift and ax.values.dtype.kind in "if":
+                lab = [l + (1 if ax.values.dtype.kind == "i" else 0.125) for l in lab]
+            else:
+                lab[0], lab[1] = lab[1], lab[0]
+            res = call(ds.set_axis, np.array(lab, dtype=ax.values.dtype), axis=ax.name)
+            if isinstance(res, Raised):
+                return bad("ds.set_axis({}, axis={!r}) raised {}".format(lab, ax.name, res), klass="unexpected-exception")
+            swapped[ax.name] = lab
+    if not swapped:
+        return r
+    r2 = _judge(ds, case)
+    if not r2["ok"]:
+        return bad("second call on the same Dataset after relabelling in place (now {}): {}".format(swapped, r2.get("detail")), klass=r2.get("klass", "mismatch"))
+    return r
+
+
+def _judge(ds, case):
+    w = case["ds"]
     before = common.snap(ds)
     op = case["op"]
     kinds = {}
@@ -284,7 +314,8 @@ def check(case):
         form, mode, idx = op[1], op[2], op[3]
         kw = _ixkw(idx, kinds, mode)
         if form in ("dict", "dictpos"):
-            f = lambda: ds.take(indices=dict(kw), indexing=mode)
+            kwobj = dict(kw)         # ONE mapping object, used for the Dataset call and, below, for every variable and a second Dataset call
+            f = lambda: ds.take(indices=kwobj, indexing=mode)
         elif form in ("axis", "axispos"):
             (d0, v0), = kw.items()
             f = lambda: ds.take(indices=v0, axis=d0, indexing=mode)
@@ -300,6 +331,12 @@ def check(case):
             f = lambda: ds.loc[tuple(kw[d] for d in dims)]
         elif form == "ixtuple":
             f = lambda: ds.ix[tuple(kw[d] for d in dims)]
+        if form in ("dict", "dictpos"):
+            first = call(f)
+            again = call(f)
+            if isinstance(first, Raised) != isinstance(again, Raised) or (not isinstance(first, Raised) and common.snap(first) != common.snap(again)):
+                return bad("{}: a second Dataset.take with the SAME indices mapping gives {} but the first gave {}".format(
+                    what, common.describe(again), common.describe(first)))
         for k in ds.keys():
             v = ds[k]
             sub = {d: kw[d] for d in v.dims if d in kw}
